@@ -187,6 +187,9 @@ func (d *Driver) build(msg int, c *sess, fault string) built {
 		if prev == 0 {
 			prev = 61
 		}
+		if v, ok := map[string]uint8{"prev-0": 0, "prev-99": 99, "prev-255": 255}[fault]; ok {
+			prev = v
+		}
 		return built{has: true, plain: enc(protocol.ErrorMessage{Code: protocol.InternalServerErrCode, PrevMsgType: prev, ErrString: "raw client gives up", Timestamp: time.Now().Unix()})}
 	}
 	return built{has: true, plain: []byte{0x80}}
@@ -381,6 +384,9 @@ func (d *Driver) build64(c *sess, fault string) built {
 	}
 	b.plain = sign1(key, d.pss, unprot, eat(guid, c.proveDv, fdoClaim, f), o)
 	b.onResp = func(typ int, body []byte) {
+		if typ != 65 && pend != nil && d.KeepRejectedKeys {
+			c.kx, c.has65 = pend, true
+		}
 		if typ != 65 || pend == nil {
 			return
 		}
